@@ -21,6 +21,10 @@ def gen(R, maxdev, sim):
         cfg = "INIT Init\nNEXT Next\nINVARIANT EmitLayout\nCONSTANTS MaxDev = 8\n MaxDepth = 4\n StartSym = \"prog\"\n"
         res = R.tlc("ShellGen", cfg, simulate="num=%d" % sim, depth=800, workers=8, name="ShellGen-layout-sim", timeout=3000)
         cases += shellgen._cases(res)
+    # here-documents at every redirection / newline site (two pool entries)
+    cfg = "INIT Init\nNEXT Next\nINVARIANT EmitLayout\nCONSTANTS MaxDev = 1\n MaxDepth = 3\n StartSym = \"hdlay\"\n"
+    res = R.tlc("ShellGen", cfg, name="ShellGen-layout-hd", timeout=3000)
+    cases += shellgen._cases(res)
     return shellgen.dedup(cases)
 
 
